@@ -101,8 +101,10 @@ package dag
 //@   ensures [parents] result1 == nil ==> (forall k int :: { parentCommit[k] } 0 <= k && k < len(parentCommit) ==> repository.anc(parentCommit[k], result))
 
 // merge (C02): the five scenarios, decided on the ghost ref store and the ancestry relation.
+// (C15) ... and no ref outside refs/<namespace>/ is ever created, moved or deleted by it
 //@ func merge
-//@   props C02 C07 C06 C01
+//@   props C02 C07 C06 C01 C15
+//@   ensures [own-namespace-only] forall k string :: { (k in repository.refs) } !strings.HasPrefix(k, "refs/" + def.Namespace + "/") ==> (k in repository.refs) == (k in old(repository.refs)) && repository.refs[k] == old(repository.refs)[k]
 //@   pure wrapper
 //@   requires repo != nil && def.OperationUnmarshaler != nil
 //@   requires [wrapper-non-nil] forall e *Entity :: { wrapper(e) } e != nil ==> wrapper(e) != nil
@@ -138,7 +140,7 @@ package dag
 // Remove (C14): the local ref and the remote-tracking ref of every configured remote are gone, every
 // other ref is untouched.
 //@ func Remove
-//@   props C14
+//@   props C14 C15
 //@   requires repo != nil
 //@   let ns = def.Namespace
 //@   let sid = string(id)
@@ -206,17 +208,27 @@ package dag
 //@ func Operation.Author
 //@   purefn
 //@ func (*Entity).Commit
-//@   props C06 C05
+//@   props C06 C05 C15 C04
+//@   ensures [own-namespace-only] forall k string :: { (k in repository.refs) } !strings.HasPrefix(k, "refs/" + e.Namespace + "/") ==> (k in repository.refs) == (k in old(repository.refs)) && repository.refs[k] == old(repository.refs)[k]
 //@   requires e != nil && repo != nil
+//@   requires [separate] sarr(e.ops) != sarr(e.staging) || sarr(e.ops) == 0
 //@   let refs0 = old(repository.refs)
+//@   let first0 = old(len(e.ops) > 0 ? e.ops[0] : e.staging[0])
+//@   ensures [first-op-kept] result == nil ==> len(e.ops) > 0 && e.ops[0] == first0
 //@   ensures [failure-touches-no-ref] result != nil ==> repository.refs == refs0
 //@   ensures [one-ref-set]            result == nil ==> (exists r string :: repository.refs == update(refs0, r, e.lastCommit))
 //@   ensures [ref-update-is-last]     result == nil ==> repository.refMutSeq == repository.mutSeq && repository.mutSeq > old(repository.mutSeq)
 //@   ensures [clock-before-stamp]     result == nil ==> repository.clockSeen[e.Namespace + "-edit"] >= e.editTime
 //@   loop 1
+//@     invariant [first] (len(e.ops) > 0 ? e.ops[0] == first0 : (len(e.staging) > 0 && e.staging[0] == first0)) && (len(e.staging) < len(old(e.staging)) ==> len(e.ops) > 0) && len(e.staging) <= len(old(e.staging))
+//@     invariant [sep]   sarr(e.ops) != sarr(e.staging) || sarr(e.ops) == 0 || len(e.staging) == 0
 //@     invariant repository.refs == refs0 && repository.mutSeq >= old(repository.mutSeq)
 //@     invariant len(e.staging) == len(old(e.staging)) || repository.clockSeen[e.Namespace + "-edit"] >= e.editTime
 //@   loop 2
+//@     invariant [first] len(e.ops) > 0 ? e.ops[0] == first0 : (len(toCommit) > 0 ? toCommit[0] == first0 : (len(e.staging) > 0 && e.staging[0] == first0))
+//@     invariant [sep]   (sarr(e.ops) != sarr(e.staging) || sarr(e.ops) == 0) && (toCommit == nil || (fresh(toCommit) && sarr(toCommit) != sarr(e.ops) && sarr(toCommit) != sarr(e.staging)))
+//@     invariant [nonempty] len(toCommit) > 0 || (author == nil && len(e.staging) > 0)
+//@     invariant [progress] len(e.staging) + len(toCommit) <= len(old(e.staging)) && (len(toCommit) > 0 ==> len(e.staging) < len(old(e.staging)))
 //@     invariant repository.refs == refs0 && repository.mutSeq >= old(repository.mutSeq)
 
 // The comparator of read's sort: edit time first, pack id second.
@@ -227,3 +239,42 @@ package dag
 //@   props C03 C01
 //@   modifies nothing
 //@   ensures result == ((oppSlice[i].EditTime != oppSlice[j].EditTime) ? oppSlice[i].EditTime < oppSlice[j].EditTime : oppSlice[i].Id() < oppSlice[j].Id())
+
+// ---- ids (C04): derived once, then fixed --------------------------------------------------------------------
+// firstOp(e): the operation that names the entity - the first committed one, else the first staged one.
+// IdOperation derives an operation's id from its stored form the first time it is asked and returns that same
+// id ever after; an entity's first operation - hence its id - is not changed by appending or committing.
+//@ func IdOperation
+//@   props C04
+//@   maypanic
+//@   requires base != nil
+//@   modifies base.id
+//@   opt trusted_frame
+//@   ensures [stable]  old(base.id) != entity.UnsetId ==> result == old(base.id) && base.id == old(base.id)
+//@   ensures [derived] old(base.id) == entity.UnsetId ==> base.id == result && result != "" && result != entity.UnsetId
+//@ func (*Entity).FirstOp
+//@   props C04
+//@   requires e != nil
+//@   modifies nothing
+//@   ensures result == (len(e.ops) > 0 ? e.ops[0] : (len(e.staging) > 0 ? e.staging[0] : nil))
+//@ func (*Entity).Append
+//@   props C04
+//@   requires e != nil
+//@   requires [separate] sarr(e.ops) != sarr(e.staging) || sarr(e.ops) == 0
+//@   modifies e.staging, elems(e.staging)
+//@   ensures [first-op-kept] old(len(e.ops)) > 0 || old(len(e.staging)) > 0 ==> (len(e.ops) > 0 ? e.ops[0] : e.staging[0]) == old(len(e.ops) > 0 ? e.ops[0] : e.staging[0])
+//@   ensures [appended] len(e.staging) == old(len(e.staging)) + 1 && e.staging[len(e.staging) - 1] == op && e.ops == old(e.ops)
+
+// Later metadata never overrides (C10, C04): an extra key is only set when the operation has no extra value for
+// it yet, and reading a key prefers the operation's own metadata.
+//@ func (*OpBase).setExtraMetadataImmutable
+//@   props C10 C04
+//@   requires base != nil
+//@   ensures [kept-if-present] old(base.extraMetadata != nil && (key in base.extraMetadata)) ==> base.extraMetadata[key] == old(base.extraMetadata[key])
+//@   ensures [set-if-absent]   !old(base.extraMetadata != nil && (key in base.extraMetadata)) ==> (key in base.extraMetadata) && base.extraMetadata[key] == value
+//@ func (*OpBase).GetMetadata
+//@   props C10 C04
+//@   requires base != nil
+//@   modifies nothing
+//@   ensures [own-metadata-wins] base.Metadata != nil && (key in base.Metadata) ==> result1 && result == base.Metadata[key]
+//@   ensures [extra-otherwise]   !(base.Metadata != nil && (key in base.Metadata)) ==> result1 == (base.extraMetadata != nil && (key in base.extraMetadata)) && (result1 ==> result == base.extraMetadata[key])
